@@ -483,3 +483,105 @@ func (c *conn) SetWriteDeadline(t time.Time) error {
 }
 
 var _ = errors.New
+
+// Pipe end types for process stdio models.
+type pipeR struct {
+	h   *half
+	dom *vs.Domain
+}
+type pipeW struct {
+	h   *half
+	cap int
+}
+
+// NewPipe returns a unidirectional buffered pipe (an OS pipe model: capacity
+// bytes of buffer, writers block when it is full, EOF after the write end is
+// closed and the buffer drained). rdom is the domain that reads from it.
+func NewPipe(capacity int, rdom *vs.Domain) (io.ReadCloser, io.WriteCloser) {
+	h := newHalf()
+	return &pipeR{h: h, dom: rdom}, &pipeW{h: h, cap: capacity}
+}
+
+func (p *pipeR) Read(b []byte) (int, error) {
+	for {
+		h := p.h
+		h.mu.Lock()
+		if h.rclosed {
+			h.mu.Unlock()
+			return 0, os.ErrClosed
+		}
+		if len(h.buf) > 0 {
+			n := copy(b, h.buf)
+			h.buf = h.buf[n:]
+			if len(h.buf) == 0 {
+				h.buf = nil
+			}
+			h.notify()
+			h.mu.Unlock()
+			return n, nil
+		}
+		if h.wclosed {
+			h.mu.Unlock()
+			return 0, io.EOF
+		}
+		sig := h.sig
+		h.mu.Unlock()
+		<-sig
+	}
+}
+
+func (p *pipeR) Close() error {
+	p.h.mu.Lock()
+	p.h.rclosed = true
+	p.h.buf = nil
+	p.h.notify()
+	p.h.mu.Unlock()
+	return nil
+}
+
+func (p *pipeW) Write(b []byte) (int, error) {
+	total := 0
+	for len(b) > 0 {
+		h := p.h
+		h.mu.Lock()
+		if h.rclosed || h.wclosed {
+			h.mu.Unlock()
+			return total, syscall.EPIPE
+		}
+		if room := p.cap - len(h.buf); room > 0 {
+			n := len(b)
+			if n > room {
+				n = room
+			}
+			h.buf = append(h.buf, b[:n]...)
+			b = b[n:]
+			total += n
+			h.notify()
+			h.mu.Unlock()
+			continue
+		}
+		sig := h.sig
+		h.mu.Unlock()
+		<-sig
+	}
+	return total, nil
+}
+
+func (p *pipeW) Close() error {
+	p.h.mu.Lock()
+	p.h.wclosed = true
+	p.h.notify()
+	p.h.mu.Unlock()
+	return nil
+}
+
+// Buffered reports how many bytes sit unread in the pipe.
+func Buffered(w io.WriteCloser) int {
+	p, ok := w.(*pipeW)
+	if !ok {
+		return 0
+	}
+	p.h.mu.Lock()
+	defer p.h.mu.Unlock()
+	return len(p.h.buf)
+}
